@@ -1,0 +1,12 @@
+//go:build verif
+
+// Contracts for the deductive verifier in /verif (comment-only; compiled only with -tags verif).
+package types
+
+// What an accepted parameter set guarantees (C16). paramsOK is defined next to the keeper contracts; every
+// keeper function that consumes parameters assumes exactly this predicate and nothing more about them.
+//@ func Params.Validate
+//@   property C16
+//@   returns err
+//@   ensures valid: err == nil ==> paramsOK(p)
+//@ end
